@@ -12,7 +12,11 @@ import (
 )
 
 func (e *Engine) newProof(fn *ssa.Function) *Proof {
-	p := &Proof{eng: e, fn: fn, fname: e.funcDisplayName(fn), notes: map[string]bool{}, unmodelled: map[string]bool{}, inlined: map[string]bool{},
+	name := ""
+	if fn != nil {
+		name = e.funcDisplayName(fn)
+	}
+	p := &Proof{eng: e, fn: fn, fname: name, notes: map[string]bool{}, unmodelled: map[string]bool{}, inlined: map[string]bool{},
 		assumedLib: map[string]bool{}, initHeap: map[string]*Term{}, params: map[string]Value{}, specApps: map[string]bool{},
 		strSeen: map[int]bool{}, specSeen: map[int]bool{}, typeInvSeen: map[int]bool{}}
 	p.privateBytes = e.privateNext
@@ -361,6 +365,9 @@ func (p *Proof) computeAllowed(fr *Frame, c *Contract) {
 func (p *Proof) frameGoal(k string, fin *Term) *Term {
 	init, ok := p.initHeap[k]
 	if !ok || fin == init {
+		return True()
+	}
+	if !strings.HasPrefix(k, "G:") && p.framedSyntactically(fin, init, map[int]bool{}) {
 		return True()
 	}
 	alw, ok := p.allowedHeap.Heap[k]
